@@ -191,10 +191,22 @@ class Conn:
             # Real transports drop (and eventually warn about) writes after close.
             self.net.log.append((self.net.loop.time(), "write-after-close", self.index, data))
             return
+        if getattr(self, "half_closed", False):
+            # written into a connection whose peer has closed: the bytes go nowhere, a reset comes back
+            self.net.log.append((self.net.loop.time(), "write-after-peer-close", self.index, data))
+            self.net.loop.call_later(0.001, self._reset_after_half_close)
+            return
         self.writes.append((self.net.loop.time(), data))
         self.net.log.append((self.net.loop.time(), "tx", self.index, data))
         if self.peer is not None:
             self.peer.on_data(self, data)
+
+    def _reset_after_half_close(self) -> None:
+        if self.closing:
+            return
+        self.closing = True
+        self.closed_at = self.net.loop.time()
+        self.protocol.connection_lost(ConnectionResetError("connection reset by peer"))
 
     def client_close(self) -> None:
         if self.closing:
@@ -244,10 +256,12 @@ class Conn:
         self.closed_at = self.net.loop.time()
         self.net.log.append((self.net.loop.time(), "peer-close", self.index, b""))
         if exc is None:
-            try:
-                self.protocol.eof_received()
-            except Exception:  # pragma: no cover - library protocols do not raise here
-                raise
+            # graceful close (FIN): as in asyncio's stream transports the protocol decides - a true return value keeps
+            # the transport open (half-closed); the peer is gone, so the next write is answered with a reset
+            if self.protocol.eof_received():
+                self.closing = False
+                self.half_closed = True
+                return
         self.protocol.connection_lost(exc)
 
 
